@@ -741,5 +741,5 @@ def specs(tier):
     if tier == 'thorough':
         return [UnitSpec(), ReqCondSpec(), E2ESpec(2, 99, 'e2e-len2'), E2ESpec(3, 5, 'e2e-len3'),
                 E2ESpec(4, 3, 'e2e-len4'),
-                E2ESpec(5, 99, 'e2e-sub5', alphabet=SUB_ALPHABET, with_opts=False), PluginSpec(3, 4, 'plugin-len3')]
+                E2ESpec(5, 5, 'e2e-sub5', alphabet=SUB_ALPHABET, with_opts=False), PluginSpec(3, 4, 'plugin-len3')]
     return [UnitSpec(), ReqCondSpec(), E2ESpec(2, 99, 'e2e-len2'), E2ESpec(3, 3, 'e2e-len3'), PluginSpec(3, 2, 'plugin-len3')]
